@@ -389,7 +389,7 @@ impl<'a> Gen<'a> {
         }
     }
 
-    fn fields(&mut self, depth: usize, tr: Trait, n: usize, in_variant: bool) -> Vec<Field> {
+    fn fields(&mut self, depth: usize, tr: Trait, n: usize, _in_variant: bool) -> Vec<Field> {
         let mut names: Vec<&str> = if self.profile.hostile_names { HOSTILE_FIELDS.to_vec() } else { FIELD_POOL.to_vec() };
         if self.profile.hostile_names && tr == Trait::Meta {
             // names that are magic only for the element-level traits are ordinary fields here
@@ -456,7 +456,7 @@ impl<'a> Gen<'a> {
         }
         // at most one flatten member: a nested struct receiver, a boxed one, or a string map
         let _ = tr;
-        if self.profile.flatten && !in_variant && depth < self.profile.max_depth && self.rng.chance(self.profile.flatten_weight, 8) {
+        if self.profile.flatten && depth < self.profile.max_depth && self.rng.chance(self.profile.flatten_weight, 8) {
             let ty = match self.rng.below(5) {
                 0 => Ty::Map(Box::new(Ty::Sc(Sc::Str))),
                 1 => {
